@@ -24,7 +24,10 @@ def colorNames : List String := ["foo", "bar", "baz", "fo", "foobar"]
 def osAnswer : String → Option (Option Nat)
   | "file0" => some (some 0) | "file5" => some (some 5) | "file4096" => some (some 4096)
   | "symfile" => some (some 5)
+  | "symsym" => some (some 5)
   | "dir" | "missing" | "dangling" | "dot" | "emptypath" => some none
+  -- stat fails with ELOOP / ENAMETOOLONG / ENOTDIR, or the file exists but is not a regular file: no size either
+  | "selfloop" | "loopa" | "loopb" | "symdir" | "fifo" | "longname" | "underfile" | "underloop" | "longpath" => some none
   | _ => none
 
 def parsePairs (s : String) : Option (List (Int × Int)) :=
